@@ -22,7 +22,7 @@ RULE = ("(a) histories of 2-8 connections opening, calling and closing against r
         "non-trivial = more than one connection or thread involved")
 ASSUMPTIONS = ["a slow constructor (sleep) is a legitimate application behaviour that widens the race window without touching Pyro",
                "scheduling points = source lines of Daemon._getInstance (and its nested createInstance) only"]
-REQUIRED_REACH = ["single_ok", "session_ok", "percall_ok", "creator_counts_ok", "failing_creator_ok", "racing_first_calls", "session_instances_dropped", "schedules_explored", "multi_daemon_ok"]
+REQUIRED_REACH = ["single_ok", "session_ok", "percall_ok", "creator_counts_ok", "failing_creator_ok", "racing_first_calls", "session_instances_dropped", "schedules_explored", "multi_daemon_ok", "oneway_first_requests"]
 SHARD_TIMEOUT = {"quick": 240, "thorough": 2800}
 SHAPES = ["truthy", "falsy_len", "falsy_bool", "eq_always"]
 CREATORS = ["none", "ok", "raises", "wrongtype", "subclass"]     # subclass: the creator returns an instance of a subclass (allowed by the daemon's isinstance check)
@@ -39,6 +39,7 @@ class Book:
         self.creator_results = 0
         self.serving = []         # (instance serial, conn serial, call no)
         self.refs = {}            # instance serial -> weakref
+        self.oneway_done = 0
 
 
 def make_class(P, mode, shape, creator, slow=0.0):
@@ -64,6 +65,13 @@ def make_class(P, mode, shape, creator, slow=0.0):
                 book.serving.append((self.serial, conn, callno))
             return [self.serial, conn]
 
+        def fire(self, callno=None):
+            # (made oneway below) which instance serves a connection's oneway call is part of the same accounting
+            conn = getattr(ctx.client, "_vserial", None)
+            with book.lock:
+                book.serving.append((self.serial, conn, "oneway"))
+                book.oneway_done += 1
+
     if shape == "falsy_len":
         Inst.__len__ = lambda self: 0
     elif shape == "falsy_bool":
@@ -71,6 +79,7 @@ def make_class(P, mode, shape, creator, slow=0.0):
     elif shape == "eq_always":
         Inst.__eq__ = lambda self, other: True
         Inst.__hash__ = lambda self: 7
+    Inst.fire = P.server.oneway(Inst.fire)
     Inst = P.server.expose(Inst)
 
     subcls = []
@@ -97,7 +106,7 @@ def make_class(P, mode, shape, creator, slow=0.0):
 
 def socket_case(fx, mode, shape, creator, nconn, ncalls, rec, r, sername, race):
     P = fx.P
-    slow = r.choice([0.001, 0.004, 0.01]) if race else 0.0
+    slow = r.choice([0.001, 0.004, 0.01]) if race else (r.choice([0.0, 0.06, 0.1]) if mode == "session" else 0.0)      # (Nagle + delayed ACK put ~40 ms between a oneway request and the next one)
     cls, book = make_class(P, mode, shape, creator, slow)
     objid = "cls%d" % r.randrange(10 ** 9)
     fx.daemon.register(cls, objid)
@@ -106,6 +115,8 @@ def socket_case(fx, mode, shape, creator, nconn, ncalls, rec, r, sername, race):
     results = {}
     errors = {}
     barrier = threading.Barrier(nconn)
+    oneway_sent = [0]
+    olock = threading.Lock()
 
     def client(i):
         try:
@@ -115,6 +126,11 @@ def socket_case(fx, mode, shape, creator, nconn, ncalls, rec, r, sername, race):
             if race:
                 barrier.wait(10)
                 rec.count("racing_first_calls")
+            if mode == "session" and i % 2 == 1 and creator in ("none", "ok", "subclass"):
+                # the connection's very first request is a oneway call, the next request follows at once
+                p.fire(0)
+                with olock:
+                    oneway_sent[0] += 1
             for c in range(ncalls):
                 try:
                     out.append(tuple(p.who(c)))
@@ -166,10 +182,18 @@ def socket_case(fx, mode, shape, creator, nconn, ncalls, rec, r, sername, race):
         if len(ok_calls) != len(calls):
             rec.inconc("calls failed unexpectedly: %r" % ([c for c in calls if c[2][0] == "exc"][:2],))
             return
+        if oneway_sent[0]:
+            fx.wait_until(lambda: book.oneway_done >= oneway_sent[0], 10.0)
+            with book.lock:
+                created, ccalls, cres, serving = list(book.created), book.creator_calls, book.creator_results, list(book.serving)
+            rec.count("oneway_first_requests", oneway_sent[0])
         insts = {res[0] for _, _, res in ok_calls}
         by_conn = {}
         for i, c, res in ok_calls:
             by_conn.setdefault(res[1], set()).add(res[0])
+        for inst, conn, what in serving:
+            if what == "oneway":
+                by_conn.setdefault(conn, set()).add(inst)
         if mode == "single":
             if len(insts) != 1 or len(created) != 1:
                 rec.violation("single-mode-multiple-instances:" + ("race" if race and shape == "truthy" else shape), "single/%s/%s (%d connections%s): %d instances were constructed and %d distinct instances served calls: %r" % (
